@@ -1,5 +1,6 @@
 mod asm;
 mod authgate;
+mod satloc;
 mod cfggate;
 mod crash;
 mod gas;
@@ -118,7 +119,8 @@ fn main() {
         "vk-edges" => vk::run(&args[2], args[3].parse().unwrap(), &args[4]),
         "smoke" => smoke(),
         "play" => play(&args[2..]),
-        "crash" => crash::run(&args[2], &args[3], args.get(4).and_then(|x| x.parse().ok()).unwrap_or(400), false),
+        "crash" => crash::run(&args[2], &args[3], args.get(4).and_then(|x| x.parse().ok()).unwrap_or(400), args.get(5).and_then(|x| x.parse().ok()).unwrap_or(0)),
+        "crash-child" => crash::child(&args[2], &args[3], args[4].parse().unwrap(), args[5].parse().unwrap()),
         "table" => table::run(&args[2], &args[3]),
         "schema" => surface::print_schema(),
         "surface" => surface::run(&args[2], &args[3], args[4].parse().unwrap_or(1), args[5].parse().unwrap_or(100), args.get(6).and_then(|x| x.parse().ok()).unwrap_or(0)),
@@ -127,7 +129,8 @@ fn main() {
         "replica-child" => replicas::child(&args[2]),
         "gas" => gas::run(&args[2], args[3].parse().unwrap_or(1), args[4].parse().unwrap_or(20)),
         "cfggate" => cfggate::run(&args[2], &args[3]),
-        "auth" => authgate::run(&args[2], &args[3]),
+        "satloc" => satloc::run(&args[2], &args[3]),
+        "auth" => authgate::run(&args[2], &args[3], args.get(4).map(|x| x == "on")),
         "methods" => {
             let dir = tempfile::TempDir::new().unwrap();
             brc20_prog::verif::set_config(inst::config("regtest", true, dir.path()));
